@@ -8,7 +8,7 @@
 Require Import Calc.Sem.
 Require Import Calc.Base Calc.Bytecode Calc.BytecodeProofs Calc.Value Calc.FloatText Calc.Ast Calc.Compile Calc.VM
         Calc.MemProofs Calc.ExprSem Calc.ExprVM Calc.ExprCorrect Calc.ExprTop Calc.ExprAssign Calc.ExprLen
-        Calc.ExprSession Calc.StmtSem Calc.StmtVM.
+        Calc.ExprSession Calc.StmtSem Calc.StmtVM Calc.CallVM.
 Require Import Lia.
 Open Scope Z_scope.
 
@@ -20,14 +20,20 @@ Lemma tfl_discard d d' : withDiscard d' (pass (tfl d)) = tfl d'. Proof. reflexiv
 Lemma tfl_last d : withReturning (Returning (tfl d)) (withDiscard (Discard (tfl d)) (pass (tfl d))) = tfl d.
 Proof. destruct d; reflexivity. Qed.
 
+Section WithB.
+Variable Bf : string -> value.
+Local Notation ssem := (StmtSem.ssem Bf).
+Local Notation sblock_of := (StmtSem.sblock_of Bf).
+Local Notation swhile_of := (StmtSem.swhile_of Bf).
+
 Definition meaning := world -> option (world * res value).
 
 (* the world a machine holds *)
-Definition wof (v : vm) : world := {| w_glob := v_globals v; w_out := v_out v; w_in := v_in v |}.
+Definition wof (v : vm) : world := {| w_glob := v_globals v; w_out := v_out v; w_in := v_in v; w_next := v_next v |}.
 
 Definition set_world (v : vm) (W : world) : vm :=
   {| v_cs := v_cs v; v_ncs := v_ncs v; v_ds := v_ds v; v_dbg := v_dbg v; v_globals := w_glob W;
-     v_mems := v_mems v; v_ctxs := v_ctxs v; v_frames := v_frames v; v_next := v_next v;
+     v_mems := v_mems v; v_ctxs := v_ctxs v; v_frames := v_frames v; v_next := w_next W;
      v_out := w_out W; v_in := w_in W; v_dead_read := v_dead_read v; v_grew_captured := v_grew_captured v |}.
 
 Definition SG (v : vm) (W : world) (mid : Z) (m : mem) : vm := St (set_world v W) mid m.
@@ -61,10 +67,24 @@ Proof. unfold okind, skind. tauto. Qed.
 
 Definition stack_effect (K : Z) : Z := if K =? AddrStck then 1 else 0.
 
+(* ---- where the built-in functions are: their values Bf, their code, their captured frames ---- *)
+Definition bop_code (b : bop) : Z := match b with BWrite => WRITE | BToa => TOA | BAton => ATON end.
+
+Definition is_bfun (v : vm) (b : bop) (f : value) : Prop :=
+  exists morph fid fr i1 i2,
+    f = VFun morph fid /\ fn_params morph = 1 /\ fn_locals morph = 1 /\
+    assoc_get (v_frames v) fid = Some fr /\
+    znth (v_cs v) (fn_node morph) = Some i1 /\ znth (v_cs v) (fn_node morph + 1) = Some i2 /\
+    decode i1 = {| f_op := bop_code b; f_k0 := AddrLcl; f_k1 := 0; f_k2 := 0; f_a0 := 0; f_a1 := 0; f_a2 := 0 |} /\
+    decode i2 = {| f_op := RET; f_k0 := AddrStck; f_k1 := 0; f_k2 := 0; f_a0 := 0; f_a1 := 0; f_a2 := 0 |}.
+
+Definition bcode (v : vm) : Prop :=
+  forall nm b mo fid, bop_of_name nm = Some b -> Bf nm = VFun mo fid -> is_bfun v b (Bf nm).
+
 (* running the code of a statement *)
 Definition RunsS (M : meaning) (d : bool) (s s2 sd : cstate) (P : list Z) (K A : Z) : Prop :=
   forall rr v mid m r G' res,
-    code_at v (ncs s) P -> data_at v sd -> cur_mid v r = Good mid ->
+    bcode v -> code_at v (ncs s) P -> data_at v sd -> cur_mid v r = Good mid ->
     0 <= m_sp m <= zlen (m_stack m) -> r_ip r = ncs s ->
     M (wof v) = Some (G', res) ->
     match res with
@@ -84,7 +104,7 @@ Definition SpecS (t : node) (d : bool) (sel : Z) (s s' : cstate) (w : Z) : Prop 
 Lemma RunsS_data M d s s2 sd sd' P K A dd :
   RunsS M d s s2 sd P K A -> rds sd' = dd ++ rds sd -> RunsS M d s s2 sd' P K A.
 Proof.
-  intros H E rr v mid m r G' res Hc Hd. apply H; [exact Hc|]. apply (data_at_ext v sd sd' dd Hd E).
+  intros H E rr v mid m r G' res Hbc Hc Hd. apply H; [exact Hbc|exact Hc|]. apply (data_at_ext v sd sd' dd Hd E).
 Qed.
 
 Lemma opnd_sp v b K A x m' r' : opnd v b K A x m' r' -> m_sp m' = b + stack_effect K.
@@ -99,7 +119,7 @@ Lemma RunsK_S D keep d s s2 sd P K A (M : meaning) :
   (forall G G' res, M G = Some (G', res) -> G' = G /\ res = D (w_glob G)) ->
   RunsS M d s s2 sd P K A.
 Proof.
-  intros H HM rr v mid m r G' res Hc Hdat Hm Hsp Hip HMv.
+  intros H HM rr v mid m r G' res Hbc Hc Hdat Hm Hsp Hip HMv.
   destruct (HM _ _ _ HMv) as [-> ->].
   specialize (H rr v mid m r Hc Hdat Hm Hsp Hip). change (w_glob (wof v)) with (v_globals v).
   destruct (D (v_globals v)) as [x|err].
@@ -135,7 +155,7 @@ Lemma ssem_assign n W g e W' res :
   ssem n W (NAssign (NName g) e) = Some (W', res) ->
   exists G0, sem_simple (w_glob W) (NAssign (NName g) e) = (G0, res) /\ W' = wglob W G0.
 Proof.
-  destruct n as [|n]; [discriminate|]. cbn [ssem]. destruct (Nat.leb (height e) n); [|discriminate].
+  destruct n as [|n]; [discriminate|]. cbn [StmtSem.ssem]. destruct (Nat.leb (height e) n); [|discriminate].
   intros H. injection H as <- <-. eexists. split; [apply surjective_pairing|reflexivity].
 Qed.
 
@@ -171,7 +191,7 @@ Proof.
     + exact Ew.
     + right. right. right. left. reflexivity.
     + intros _. split; discriminate.
-    + intros n rr v mid m r G' res Hc Hdat Hm Hsp Hip HM.
+    + intros n rr v mid m r G' res Hbc Hc Hdat Hm Hsp Hip HM.
       apply ssem_assign in HM. destruct HM as [G0 [HM ->]]. change (w_glob (wof v)) with (v_globals v) in HM.
       cbn [sem_simple] in HM. rewrite (den_inc g e (v_globals v) Hinc) in HM.
       apply code_at_cons in Hc. destruct Hc as [Hi_inc _].
@@ -219,7 +239,7 @@ Proof.
     + exact Ew.
     + right. right. right. left. reflexivity.
     + intros _. split; discriminate.
-    + intros n rr v mid m r G' res Hc Hdat Hm Hsp Hip HM.
+    + intros n rr v mid m r G' res Hbc Hc Hdat Hm Hsp Hip HM.
       apply ssem_assign in HM. destruct HM as [G0 [HM ->]]. change (w_glob (wof v)) with (v_globals v) in HM.
       cbn [sem_simple] in HM.
       pose proof (code_at_nth v (ncs s) code instr [] Hc) as Hi_mov.
@@ -270,7 +290,7 @@ Lemma ssem_write n W e W' res :
   | Fail err => W' = W /\ res = Fail err
   end.
 Proof.
-  destruct n as [|n]; [discriminate|]. cbn [ssem]. destruct (Nat.leb (height e) n); [|discriminate].
+  destruct n as [|n]; [discriminate|]. cbn [StmtSem.ssem]. destruct (Nat.leb (height e) n); [|discriminate].
   destruct (den (w_glob W) e); intros H; injection H as <- <-; auto.
 Qed.
 
@@ -300,7 +320,7 @@ Proof.
   - exact Ew.
   - left. reflexivity.
   - intros _. split; discriminate.
-  - intros n rr v mid m r W' res Hc Hdat Hm Hsp Hip HM.
+  - intros n rr v mid m r W' res Hbc Hc Hdat Hm Hsp Hip HM.
     apply ssem_write in HM. change (w_glob (wof v)) with (v_globals v) in HM.
     pose proof (code_at_nth v (ncs s) code instr [] Hc) as Hi_w.
     apply code_at_app in Hc. destruct Hc as [Hc _].
@@ -410,9 +430,9 @@ Proof.
     cbn [block_comp] in H. rewrite tfl_last in H.
     destruct (Hx d 0 s w s' eq_refl Hwf H) as [code [K [A (L & W & E & Sk & NT & X)]]].
     exists code, K, A. conj; try assumption.
-    intros n rr v mid m r G' res Hc Hdat Hm Hsp Hip HM.
+    intros n rr v mid m r G' res Hbc Hc Hdat Hm Hsp Hip HM.
     apply ssem_block_one in HM. destruct HM as [n' [-> HM]].
-    exact (X n' rr v mid m r G' res Hc Hdat Hm Hsp Hip HM).
+    exact (X n' rr v mid m r G' res Hbc Hc Hdat Hm Hsp Hip HM).
   - cbn [block_comp] in H. rewrite tfl_discard in H.
     apply cbind_ok in H. destruct H as [i [s1 [Hcx H]]].
     destruct (Hx true 0 s i s1 eq_refl Hwf Hcx) as [Cx [Kx [Ax (Lx & Wx & Ex & Skx & _ & Xx)]]].
@@ -426,7 +446,7 @@ Proof.
         as [Cr [K [A (Lr & Wr & Er & Skr & NTr & Xr)]]].
       exists ((Cx ++ [New POP]) ++ Cr), K, A. conj; try assumption.
       * apply (lay_trans s (emitted s1 (New POP)) s'); [apply lay_emit; exact Lx|exact Lr].
-      * intros n rr v mid m r G' res Hc Hdat Hm Hsp Hip HM.
+      * intros n rr v mid m r G' res Hbc Hc Hdat Hm Hsp Hip HM.
         apply ssem_block_cons in HM. destruct HM as [n' [-> HM]].
         pose proof (code_at_app v (ncs s) (Cx ++ [New POP]) Cr Hc) as [Hc1 HcR].
         pose proof (code_at_nth v (ncs s) Cx (New POP) [] Hc1) as Hi_pop.
@@ -434,7 +454,7 @@ Proof.
         destruct Lr as (Rr & Nr & [dr Dr]). cbn [emitted rds] in Dr.
         assert (Hd1 : data_at v s1) by (apply (data_at_ext v s1 s' dr Hdat Dr)).
         destruct (ssem n' (wof v) x) as [[G1 [xv|e]]|] eqn:Ex1; [| |contradiction].
-        -- pose proof (Xx n' rr v mid m r G1 (Ok xv) HcX Hd1 Hm Hsp Hip Ex1) as E1. cbn beta iota in E1.
+        -- pose proof (Xx n' rr v mid m r G1 (Ok xv) Hbc HcX Hd1 Hm Hsp Hip Ex1) as E1. cbn beta iota in E1.
            destruct E1 as [k1 [m1 [r1 [Hs1 [Hm1 [Hc1 [Hi1 Hsp1]]]]]]].
            rewrite EK in Hsp1. unfold stack_effect in Hsp1. cbn in Hsp1.
            set (v1 := set_world v G1).
@@ -454,7 +474,7 @@ Proof.
            assert (Hip2 : r_ip r2 = ncs (emitted s1 (New POP))) by (unfold r2; cbn [with_ip r_ip emitted ncs]; lia).
            assert (Hsp2' : 0 <= m_sp (mdrop m1) <= zlen (m_stack (mdrop m1))).
            { destruct Hm2 as (_&_&_&_&_&B). lia. }
-           pose proof (Xr (S n') rr v1 mid (mdrop m1) r2 G' res HcR' Hdat Hm2' Hsp2' Hip2 HM) as E2.
+           pose proof (Xr (S n') rr v1 mid (mdrop m1) r2 G' res Hbc HcR' Hdat Hm2' Hsp2' Hip2 HM) as E2.
            destruct res as [yv|err].
            ++ destruct E2 as [k2 [m' [r' [Hs' [Hm' [Hc' [Hi' Hpost]]]]]]].
               exists (k1 + (1 + k2))%nat, m', r'. rewrite steps_app, Hs1. unfold SG. fold v1.
@@ -469,7 +489,7 @@ Proof.
               rewrite steps_app, Hs2. fold r2. rewrite Hs'.
               replace (r_ctx r2) with (r_ctx r) by (unfold r2; cbn [with_ip r_ctx]; congruence). reflexivity.
         -- destruct HM as [-> ->].
-           pose proof (Xx n' rr v mid m r G1 (Fail e) HcX Hd1 Hm Hsp Hip Ex1) as E1. cbn beta iota in E1.
+           pose proof (Xx n' rr v mid m r G1 (Fail e) Hbc HcX Hd1 Hm Hsp Hip Ex1) as E1. cbn beta iota in E1.
            destruct E1 as [k1 [me [ip [vals Hs1]]]]. exists k1, me, ip, vals. exact Hs1.
     + (* nothing on the stack *)
       apply cret_ok in Hpop. destruct Hpop as [_ ->].
@@ -477,13 +497,13 @@ Proof.
         as [Cr [K [A (Lr & Wr & Er & Skr & NTr & Xr)]]].
       exists (Cx ++ Cr), K, A. conj; try assumption.
       * apply (lay_trans s s1 s'); assumption.
-      * intros n rr v mid m r G' res Hc Hdat Hm Hsp Hip HM.
+      * intros n rr v mid m r G' res Hbc Hc Hdat Hm Hsp Hip HM.
         apply ssem_block_cons in HM. destruct HM as [n' [-> HM]].
         apply code_at_app in Hc. destruct Hc as [HcX HcR].
         destruct Lr as (Rr & Nr & [dr Dr]).
         assert (Hd1 : data_at v s1) by (apply (data_at_ext v s1 s' dr Hdat Dr)).
         destruct (ssem n' (wof v) x) as [[G1 [xv|e]]|] eqn:Ex1; [| |contradiction].
-        -- pose proof (Xx n' rr v mid m r G1 (Ok xv) HcX Hd1 Hm Hsp Hip Ex1) as E1. cbn beta iota in E1.
+        -- pose proof (Xx n' rr v mid m r G1 (Ok xv) Hbc HcX Hd1 Hm Hsp Hip Ex1) as E1. cbn beta iota in E1.
            destruct E1 as [k1 [m1 [r1 [Hs1 [Hm1 [Hc1 [Hi1 Hsp1]]]]]]].
            unfold stack_effect in Hsp1. rewrite (proj2 (Z.eqb_neq Kx AddrStck) NK) in Hsp1.
            set (v1 := set_world v G1).
@@ -493,7 +513,7 @@ Proof.
            assert (Hm1' : cur_mid v1 r1 = Good mid).
            { change (cur_mid v1 r1) with (cur_mid v r1). rewrite (cur_mid_ctx v r r1 Hc1). exact Hm. }
            assert (Hsp1' : 0 <= m_sp m1 <= zlen (m_stack m1)) by (destruct Hm1 as (_&_&_&_&_&B); lia).
-           pose proof (Xr (S n') rr v1 mid m1 r1 G' res HcR' Hdat Hm1' Hsp1' Hi1 HM) as E2.
+           pose proof (Xr (S n') rr v1 mid m1 r1 G' res Hbc HcR' Hdat Hm1' Hsp1' Hi1 HM) as E2.
            replace (m_sp m + 0) with (m_sp m) in Hsp1 by lia.
            destruct res as [yv|err].
            ++ destruct E2 as [k2 [m' [r' [Hs' [Hm' [Hc' [Hi' Hpost]]]]]]].
@@ -507,7 +527,7 @@ Proof.
               exists (k1 + k2)%nat, me, ip, vals. rewrite steps_app, Hs1. unfold SG. fold v1. rewrite Hs'.
               replace (r_ctx r1) with (r_ctx r) by congruence. reflexivity.
         -- destruct HM as [-> ->].
-           pose proof (Xx n' rr v mid m r G1 (Fail e) HcX Hd1 Hm Hsp Hip Ex1) as E1. cbn beta iota in E1.
+           pose proof (Xx n' rr v mid m r G1 (Fail e) Hbc HcX Hd1 Hm Hsp Hip Ex1) as E1. cbn beta iota in E1.
            destruct E1 as [k1 [me [ip [vals Hs1]]]]. exists k1, me, ip, vals. exact Hs1.
 Qed.
 
@@ -670,7 +690,7 @@ Lemma ssem_if n G c b G' res :
     | Ok false => G' = G /\ res = Ok VNil
     end.
 Proof.
-  destruct n as [|n]; [discriminate|]. cbn [ssem]. destruct (Nat.leb (height c) n); [|discriminate].
+  destruct n as [|n]; [discriminate|]. cbn [StmtSem.ssem]. destruct (Nat.leb (height c) n); [|discriminate].
   intros H. exists n. split; [reflexivity|].
   destruct (cond_res (den (w_glob G) c)) as [[|]|e]; [exact H|injection H as <- <-; auto|injection H as <- <-; auto].
 Qed.
@@ -747,7 +767,7 @@ Proof.
   - exact Ek.
   - exact Sk.
   - discriminate.
-  - intros n rr v mid m r G' res Hc Hdat Hm Hsp Hip HM.
+  - intros n rr v mid m r G' res Hbc Hc Hdat Hm Hsp Hip HM.
     apply ssem_if in HM. destruct HM as [n' [-> HM]]. change (w_glob (wof v)) with (v_globals v) in HM.
     assert (Hend : ncs s3 = ncs s + zlen Cc + 1 + zlen Ct + zlen post).
     { destruct L3 as (_ & N & _). rewrite N. unfold zlen. rewrite !app_length. cbn [List.length]. rewrite app_length. lia. }
@@ -774,7 +794,7 @@ Proof.
       assert (Hsp1' : 0 <= m_sp m1 <= zlen (m_stack m1)) by (destruct Hm1 as (_&_&_&_&_&B); lia).
       assert (Hi1' : r_ip r1 = ncs s1).
       { rewrite Hi1. destruct Lc as (_ & N & _). rewrite N. unfold zlen. rewrite app_length. cbn [List.length]. lia. }
-      pose proof (Xt n' rr v mid m1 r1 G' res HcT Hdt2 Hm1' Hsp1' Hi1' HM) as Et2.
+      pose proof (Xt n' rr v mid m1 r1 G' res Hbc HcT Hdt2 Hm1' Hsp1' Hi1' HM) as Et2.
       destruct res as [x|err].
       * destruct Et2 as [k2 [m2 [r2 [Hs2 [Hm2 [Hc2 [Hi2 Hsp2]]]]]]]. cbn beta iota in Hsp2.
         destruct Hpost as [[EK ->]|[NK ->]].
@@ -897,7 +917,7 @@ Proof.
   - exact Ek.
   - left. reflexivity.
   - intros _. split; discriminate.
-  - intros n rr v mid m r G' res Hc Hdat Hm Hsp Hip HM.
+  - intros n rr v mid m r G' res Hbc Hc Hdat Hm Hsp Hip HM.
     apply ssem_if in HM. destruct HM as [n' [-> HM]]. change (w_glob (wof v)) with (v_globals v) in HM.
     assert (N1 : ncs s1 = ncs s + zlen Cc + 1).
     { destruct Lc as (_ & N & _). rewrite N. unfold zlen. rewrite app_length. cbn [List.length]. lia. }
@@ -949,7 +969,7 @@ Proof.
       assert (Hm1' : cur_mid v r1 = Good mid) by (rewrite (cur_mid_ctx v r r1 Hc1); exact Hm).
       assert (Hsp1' : 0 <= m_sp m1 <= zlen (m_stack m1)) by (destruct Hm1 as (_&_&_&_&_&B); lia).
       assert (Hi1' : r_ip r1 = ncs s1) by (rewrite Hi1, N1; reflexivity).
-      pose proof (Xt n' rr v mid m1 r1 G' res HcT Hdt2 Hm1' Hsp1' Hi1' HM) as Et2.
+      pose proof (Xt n' rr v mid m1 r1 G' res Hbc HcT Hdt2 Hm1' Hsp1' Hi1' HM) as Et2.
       destruct res as [x|err].
       * destruct Et2 as [k2 [m2 [r2 [Hs2 [Hm2 [Hc2 [Hi2 Ho2]]]]]]]. cbn beta iota in Ho2.
         set (v2 := set_world v G') in *.
@@ -1018,9 +1038,9 @@ Lemma value_on_stack M s1 s2 s3 sd Ct Kt At wt :
   ncs s2 = ncs s1 + zlen Ct -> ncs s3 = ncs s2 + zlen (push_code Kt wt) ->
   RunsS M false s1 s3 sd (Ct ++ push_code Kt wt) AddrStck 0.
 Proof.
-  intros Xt NTmp NInv Skt Et N2 N3 rr v mid m r G' res Hc Hdat Hm Hsp Hip HM.
+  intros Xt NTmp NInv Skt Et N2 N3 rr v mid m r G' res Hbc Hc Hdat Hm Hsp Hip HM.
   pose proof Hc as Hc0. apply code_at_app in Hc. destruct Hc as [HcT HcP].
-  pose proof (Xt rr v mid m r G' res HcT Hdat Hm Hsp Hip HM) as E.
+  pose proof (Xt rr v mid m r G' res Hbc HcT Hdat Hm Hsp Hip HM) as E.
   destruct res as [x|err]; [|exact E].
   destruct E as [k2 [m2 [r2 [Hs2 [Hm2 [Hc2 [Hi2 Ho2]]]]]]].
   set (v2 := set_world v G') in *.
@@ -1094,7 +1114,7 @@ Lemma ssem_ifelse n G c a b G' res :
     | Ok false => ssem n' G b = Some (G', res)
     end.
 Proof.
-  destruct n as [|n]; [discriminate|]. cbn [ssem]. destruct (Nat.leb (height c) n); [|discriminate].
+  destruct n as [|n]; [discriminate|]. cbn [StmtSem.ssem]. destruct (Nat.leb (height c) n); [|discriminate].
   intros H. exists n. split; [reflexivity|].
   destruct (cond_res (den (w_glob G) c)) as [[|]|e]; [exact H|exact H|injection H as <- <-; auto].
 Qed.
@@ -1167,7 +1187,7 @@ Proof.
   - exact Ew.
   - left. reflexivity.
   - intros _. split; discriminate.
-  - intros n rr v mid m r G' res Hc Hdat Hm Hsp Hip HM.
+  - intros n rr v mid m r G' res Hbc Hc Hdat Hm Hsp Hip HM.
     apply ssem_ifelse in HM. destruct HM as [n' [-> HM]]. change (w_glob (wof v)) with (v_globals v) in HM.
     assert (N1 : ncs s1 = ncs s + zlen Cc + 1).
     { destruct Lc as (_ & N & _). rewrite N. unfold zlen. rewrite app_length. cbn [List.length]. lia. }
@@ -1225,7 +1245,7 @@ Proof.
       assert (Hm1' : cur_mid v r1 = Good mid) by (rewrite (cur_mid_ctx v r r1 Hc1); exact Hm).
       assert (Hsp1' : 0 <= m_sp m1 <= zlen (m_stack m1)) by (destruct Hm1 as (_&_&_&_&_&B); lia).
       assert (Hi1' : r_ip r1 = ncs s1) by (rewrite Hi1, N1; reflexivity).
-      pose proof (XT rr v mid m1 r1 G' res Hcode_t Hd2 Hm1' Hsp1' Hi1' HM) as E2.
+      pose proof (XT rr v mid m1 r1 G' res Hbc Hcode_t Hd2 Hm1' Hsp1' Hi1' HM) as E2.
       destruct res as [x|err].
       * destruct E2 as [k2 [m2 [r2 [Hs2 [Hm2 [Hc2 [Hi2 Ho2]]]]]]]. cbn beta iota in Ho2. rewrite Hsp1 in Ho2.
         set (v2 := set_world v G') in *.
@@ -1250,7 +1270,7 @@ Proof.
       destruct Ec as [k1 [m1 [r1 [Hs1 [Hm1 [Hsp1 [Hc1 Hi1]]]]]]]. cbn [Bool.eqb] in Hi1.
       assert (Hm1' : cur_mid v r1 = Good mid) by (rewrite (cur_mid_ctx v r r1 Hc1); exact Hm).
       assert (Hsp1' : 0 <= m_sp m1 <= zlen (m_stack m1)) by (destruct Hm1 as (_&_&_&_&_&B); lia).
-      pose proof (XF rr v mid m1 r1 G' res Hcode_f Hd5 Hm1' Hsp1' Hi1 HM) as E2.
+      pose proof (XF rr v mid m1 r1 G' res Hbc Hcode_f Hd5 Hm1' Hsp1' Hi1 HM) as E2.
       destruct res as [x|err].
       * destruct E2 as [k2 [m2 [r2 [Hs2 [Hm2 [Hc2 [Hi2 Ho2]]]]]]]. cbn beta iota in Ho2. rewrite Hsp1 in Ho2.
         exists (k1 + k2)%nat, m2, r2. rewrite steps_app, Hs1, Hs2.
@@ -1310,7 +1330,7 @@ Lemma loop_runs n c b sB s2 s3 s4 sd Cb Kb Ab Cc2 j2 endAddr :
   CondRuns c false s3 s4 Cc2 j2 (ncs sB) ->
   endAddr = ncs s3 + zlen Cc2 + 1 ->
   forall k rr v mid m r G' res,
-    code_at v (ncs sB) (Cb ++ pop_code Kb ++ Cc2 ++ [j2]) -> data_at v sd -> data_at v s4 ->
+    bcode v -> code_at v (ncs sB) (Cb ++ pop_code Kb ++ Cc2 ++ [j2]) -> data_at v sd -> data_at v s4 ->
     cur_mid v r = Good mid -> 0 <= m_sp m <= zlen (m_stack m) -> r_ip r = ncs sB ->
     bodyloop n c b k (wof v) = Some (G', res) ->
     match res with
@@ -1320,15 +1340,15 @@ Lemma loop_runs n c b sB s2 s3 s4 sd Cb Kb Ab Cc2 j2 endAddr :
     end.
 Proof.
   intros XB N2 N3 XC2 Hend.
-  induction k as [|k IH]; intros rr v mid m r G' res Hc Hdat Hdat4 Hm Hsp Hip HB.
+  induction k as [|k IH]; intros rr v mid m r G' res Hbc Hc Hdat Hdat4 Hm Hsp Hip HB.
   - (* no iteration left: only a failing body gives a result *)
     unfold bodyloop in HB. destruct (ssem n (wof v) b) as [[G1 [bv|e]]|] eqn:Eb; try discriminate HB.
     injection HB as <- <-.
     apply code_at_app in Hc. destruct Hc as [HcB _].
-    exact (XB rr v mid m r G1 (Fail e) HcB Hdat Hm Hsp Hip Eb).
+    exact (XB rr v mid m r G1 (Fail e) Hbc HcB Hdat Hm Hsp Hip Eb).
   - unfold bodyloop in HB. destruct (ssem n (wof v) b) as [[G1 [bv|e]]|] eqn:Eb; try discriminate HB.
     + pose proof Hc as Hc0. apply code_at_app in Hc. destruct Hc as [HcB Hc']. apply code_at_app in Hc'. destruct Hc' as [HcP HcC].
-      pose proof (XB rr v mid m r G1 (Ok bv) HcB Hdat Hm Hsp Hip Eb) as E1. cbn beta iota in E1.
+      pose proof (XB rr v mid m r G1 (Ok bv) Hbc HcB Hdat Hm Hsp Hip Eb) as E1. cbn beta iota in E1.
       destruct E1 as [k1 [m1 [r1 [Hs1 [Hm1 [Hc1 [Hi1 Hsp1]]]]]]].
       set (v1 := set_world v G1) in *.
       assert (HW1 : G1 = wof v1) by (symmetry; apply wof_set_world).
@@ -1362,7 +1382,7 @@ Proof.
         assert (Hm3' : cur_mid v1 r3 = Good mid).
         { rewrite (cur_mid_ctx v1 r2 r3 Hc3). exact Hm2'. }
         assert (Hsp3' : 0 <= m_sp m3 <= zlen (m_stack m3)) by (destruct Hm3 as (_&_&_&_&_&B); lia).
-        rewrite HW1 in HB. pose proof (IH rr v1 mid m3 r3 G' res Hc0 Hdat Hdat4 Hm3' Hsp3' Hi3 HB) as E4.
+        rewrite HW1 in HB. pose proof (IH rr v1 mid m3 r3 G' res Hbc Hc0 Hdat Hdat4 Hm3' Hsp3' Hi3 HB) as E4.
         assert (Hm03 : msame (m_sp m) m m3).
         { apply (msame_trans (m_sp m) (m_sp m2) m m2 m3); [lia|exact Hm2|exact Hm3]. }
         destruct res as [x|err].
@@ -1394,7 +1414,7 @@ Proof.
         replace (r_ctx r2) with (r_ctx r) by congruence. reflexivity.
     + injection HB as <- <-.
       apply code_at_app in Hc. destruct Hc as [HcB _].
-      exact (XB rr v mid m r G1 (Fail e) HcB Hdat Hm Hsp Hip Eb).
+      exact (XB rr v mid m r G1 (Fail e) Hbc HcB Hdat Hm Hsp Hip Eb).
 Qed.
 
 Lemma ssem_while_some n G c b G' res :
@@ -1467,7 +1487,7 @@ Proof.
   - exact Ew.
   - right. right. right. right. reflexivity.
   - discriminate.
-  - intros n rr v mid m r G' res Hc Hdat Hm Hsp Hip HM.
+  - intros n rr v mid m r G' res Hbc Hc Hdat Hm Hsp Hip HM.
     apply ssem_while_some in HM. destruct HM as [n' [-> HM]].
     assert (Hend : ncs s6 = ncs s4) by (rewrite Nc6, Nc5; reflexivity).
     assert (Hcode1 : code_at v (ncs s) (Cc1 ++ [j1'])).
@@ -1498,7 +1518,7 @@ Proof.
       assert (Hm1' : cur_mid v r1 = Good mid) by (rewrite (cur_mid_ctx v r r1 Hc1); exact Hm).
       assert (Hsp1' : 0 <= m_sp m1 <= zlen (m_stack m1)) by (destruct Hm1 as (_&_&_&_&_&B); lia).
       assert (Hi1' : r_ip r1 = ncs s1) by (rewrite Hi1, N1; reflexivity).
-      pose proof (LR k rr v mid m1 r1 G' res HcodeB Hd2 Hd4 Hm1' Hsp1' Hi1' HM) as E2.
+      pose proof (LR k rr v mid m1 r1 G' res Hbc HcodeB Hd2 Hd4 Hm1' Hsp1' Hi1' HM) as E2.
       destruct res as [x|err].
       * destruct E2 as [k2 [m2 [r2 [Hs2 [Hm2 [Hsp2 [Hc2 Hi2]]]]]]].
         exists (k1 + k2)%nat, m2, r2. rewrite steps_app, Hs1, Hs2. conj.
@@ -1586,7 +1606,7 @@ Lemma loopv_runs n c b sB s2 s4 sd Cb Kb Ab Cc2 j2 P hd E2 :
   CondRuns c false s2 s4 Cc2 j2 hd ->
   E2 = ncs s2 + zlen Cc2 + 1 ->
   forall k rr v mid m0 b0 m r G' res,
-    code_at v P (New POP :: Cb ++ Cc2 ++ [j2]) -> data_at v sd -> data_at v s4 ->
+    bcode v -> code_at v P (New POP :: Cb ++ Cc2 ++ [j2]) -> data_at v sd -> data_at v s4 ->
     cur_mid v r = Good mid -> 0 <= b0 -> msame b0 m0 m ->
     r_ip r = hd -> m_sp m = b0 + stack_effect Kb ->
     bodyloop n c b k (wof v) = Some (G', res) ->
@@ -1611,7 +1631,7 @@ Proof.
       exists 1%nat, (mdrop m), (with_ip r (r_ip r + 1)). conj; try assumption; try reflexivity.
       cbn [with_ip r_ip]. lia.
     - exists 0%nat, m, r. cbn [steps]. conj; try assumption; try reflexivity. lia. }
-  induction k as [|k IH]; intros rr v mid m0 b0 m r G' res Hc Hdat Hdat4 Hm Hb0 Hms Hip Hsp HB.
+  induction k as [|k IH]; intros rr v mid m0 b0 m r G' res Hbc Hc Hdat Hdat4 Hm Hb0 Hms Hip Hsp HB.
   - unfold bodyloop in HB. destruct (ssem n (wof v) b) as [[G1 [bv|e]]|] eqn:Eb; try discriminate HB.
     injection HB as <- <-.
     destruct (Body rr v mid m0 b0 m r Hc Hm Hb0 Hms Hip Hsp) as [ja [ma [ra [Hsa [Hma [Hspa [Hca Hia]]]]]]].
@@ -1619,7 +1639,7 @@ Proof.
     { rewrite NB. apply code_at_cons in Hc. destruct Hc as [_ Hc]. apply code_at_app in Hc. exact (proj1 Hc). }
     assert (Hma' : cur_mid v ra = Good mid) by (rewrite (cur_mid_ctx v r ra Hca); exact Hm).
     assert (Hspa' : 0 <= m_sp ma <= zlen (m_stack ma)) by (destruct Hma as (_&_&_&_&_&B); lia).
-    pose proof (XB rr v mid ma ra G1 (Fail e) HcB Hdat Hma' Hspa' ltac:(rewrite Hia, NB; reflexivity) Eb) as E1.
+    pose proof (XB rr v mid ma ra G1 (Fail e) Hbc HcB Hdat Hma' Hspa' ltac:(rewrite Hia, NB; reflexivity) Eb) as E1.
     cbn beta iota in E1. destruct E1 as [k1 [me [ip [vals Hs1]]]].
     exists (ja + k1)%nat, me, ip, vals. rewrite steps_app, Hsa, Hs1. rewrite Hca. reflexivity.
   - unfold bodyloop in HB. destruct (ssem n (wof v) b) as [[G1 [bv|e]]|] eqn:Eb; try discriminate HB.
@@ -1628,7 +1648,7 @@ Proof.
       assert (HcB : code_at v (ncs sB) Cb) by (rewrite NB; exact HcB').
       assert (Hma' : cur_mid v ra = Good mid) by (rewrite (cur_mid_ctx v r ra Hca); exact Hm).
       assert (Hspa' : 0 <= m_sp ma <= zlen (m_stack ma)) by (destruct Hma as (_&_&_&_&_&B); lia).
-      pose proof (XB rr v mid ma ra G1 (Ok bv) HcB Hdat Hma' Hspa' ltac:(rewrite Hia, NB; reflexivity) Eb) as E1.
+      pose proof (XB rr v mid ma ra G1 (Ok bv) Hbc HcB Hdat Hma' Hspa' ltac:(rewrite Hia, NB; reflexivity) Eb) as E1.
       cbn beta iota in E1. destruct E1 as [k1 [m1 [r1 [Hs1 [Hm1 [Hc1 [Hi1 Ho1]]]]]]]. rewrite Hspa in Ho1, Hm1.
       set (v1 := set_world v G1) in *.
       assert (HW1 : G1 = wof v1) by (symmetry; apply wof_set_world).
@@ -1646,7 +1666,7 @@ Proof.
         assert (Hm03 : msame b0 m0 m3).
         { apply (msame_trans b0 (m_sp m1) m0 m1 m3); [destruct Hm1 as (_&_&_&_&_&B); lia|exact Hm01|exact Hm3]. }
         assert (Hm3' : cur_mid v1 r3 = Good mid) by (rewrite (cur_mid_ctx v1 r1 r3 Hc3); exact Hm1').
-        rewrite HW1 in HB. pose proof (IH rr v1 mid m0 b0 m3 r3 G' res Hc0 Hdat Hdat4 Hm3' Hb0 Hm03 Hi3 (opnd_sp _ _ _ _ _ _ _ Ho3) HB) as E4.
+        rewrite HW1 in HB. pose proof (IH rr v1 mid m0 b0 m3 r3 G' res Hbc Hc0 Hdat Hdat4 Hm3' Hb0 Hm03 Hi3 (opnd_sp _ _ _ _ _ _ _ Ho3) HB) as E4.
         destruct res as [x|err].
         -- destruct E4 as [k4 [m4 [r4 [Hs4 [Hm4 [Hc4 [Hi4 Ho4]]]]]]].
            exists (ja + (k1 + (k3 + k4)))%nat, m4, r4.
@@ -1677,7 +1697,7 @@ Proof.
       { rewrite NB. apply code_at_cons in Hc. destruct Hc as [_ Hc]. apply code_at_app in Hc. exact (proj1 Hc). }
       assert (Hma' : cur_mid v ra = Good mid) by (rewrite (cur_mid_ctx v r ra Hca); exact Hm).
       assert (Hspa' : 0 <= m_sp ma <= zlen (m_stack ma)) by (destruct Hma as (_&_&_&_&_&B); lia).
-      pose proof (XB rr v mid ma ra G1 (Fail e) HcB Hdat Hma' Hspa' ltac:(rewrite Hia, NB; reflexivity) Eb) as E1.
+      pose proof (XB rr v mid ma ra G1 (Fail e) Hbc HcB Hdat Hma' Hspa' ltac:(rewrite Hia, NB; reflexivity) Eb) as E1.
       cbn beta iota in E1. destruct E1 as [k1 [me [ip [vals Hs1]]]].
       exists (ja + k1)%nat, me, ip, vals. rewrite steps_app, Hsa, Hs1. rewrite Hca. reflexivity.
 Qed.
@@ -1770,7 +1790,7 @@ Proof.
   - exact Edest.
   - left. reflexivity.
   - intros _. split; discriminate.
-  - intros n rr v mid m r G' res Hc Hdat Hm Hsp Hip HM.
+  - intros n rr v mid m r G' res Hbc Hc Hdat Hm Hsp Hip HM.
     apply ssem_while_some in HM. destruct HM as [n' [-> HM]].
     assert (N6 : ncs s6 = ncs s4 + zlen (push_code Kb wb0)).
     { destruct Lfin as (_ & N & _). rewrite N, Nc5. reflexivity. }
@@ -1853,7 +1873,7 @@ Proof.
           cbn [with_ip r_ip]. lia. }
       destruct Enter as [ke [me [re [Hse [Hme [Hspe [Hce Hie]]]]]]].
       assert (Hme' : cur_mid v re = Good mid) by (rewrite (cur_mid_ctx v r1 re Hce); exact Hm1').
-      pose proof (LR k rr v mid m (m_sp m) me re G' res HcodeL Hd2 Hd4 Hme' (proj1 Hsp) Hme Hie Hspe HM) as E2.
+      pose proof (LR k rr v mid m (m_sp m) me re G' res Hbc HcodeL Hd2 Hd4 Hme' (proj1 Hsp) Hme Hie Hspe HM) as E2.
       destruct res as [x|err].
       * destruct E2 as [k2 [m2 [r2 [Hs2 [Hm2 [Hc2 [Hi2 Ho2]]]]]]].
         set (v2 := set_world v G') in *.
@@ -1888,6 +1908,217 @@ Proof.
       exists (1 + k1)%nat, mf, ip, vals. rewrite steps_app, Hsa. fold ra. rewrite Hs1, SG_same. reflexivity.
 Qed.
 
+(* ================= calls of the built-in functions: nm(e) ================= *)
+Lemma comp_call1_unfold nm e sel fl :
+  comp (NCall (NName nm) [e]) sel fl =
+  ((i <- comp e 0 (withOpDepth 0 (pass fl)) ;;
+    (if negb (Src0 i =? AddrStck) && negb (Src0 i =? AddrInv) then emit (Z.lor i (New PUSH)) else cret tt) ;;; cret tt) ;;;
+   (addr <- here ;;
+    put_dbg addr nm 1 ;;;
+    i <- comp_ref (NName nm) 0 ;;
+    w <- enc 1 AddrImm 1 ;;
+    emit (Z.lor (Z.lor i (New CALL)) w) ;;;
+    enc sel AddrStck 0)).
+Proof. reflexivity. Qed.
+
+Lemma put_dbg_ok a nm n s u s' : put_dbg a nm n s = COk (u, s') ->
+  rcs s' = rcs s /\ ncs s' = ncs s /\ rds s' = rds s /\ nds s' = nds s.
+Proof. unfold put_dbg. intros H. inversion H. cbn. auto. Qed.
+
+Lemma call_range : 0 <= CALL < 128. Proof. unfold CALL. lia. Qed.
+Lemma toa_range : 0 <= TOA < 128. Proof. unfold TOA. lia. Qed.
+Lemma aton_range : 0 <= ATON < 128. Proof. unfold ATON. lia. Qed.
+
+Lemma ssem_call n W nm e W' res :
+  ssem n W (NCall (NName nm) [e]) = Some (W', res) ->
+  exists b mo fid, bop_of_name nm = Some b /\ gval (w_glob W) nm = VFun mo fid /\ Bf nm = VFun mo fid /\
+    match den (w_glob W) e with
+    | Ok x => W' = wbump (fst (bop_sem b W x)) /\ res = snd (bop_sem b W x)
+    | Fail err => W' = W /\ res = Fail err
+    end.
+Proof.
+  destruct n as [|n]; [discriminate|]. cbn [StmtSem.ssem]. destruct (bop_of_name nm) as [b|]; [|discriminate].
+  destruct (Nat.leb (height e) n && Nat.leb 2 n); cbn [andb]; [|discriminate].
+  destruct (fun_eqb (gval (w_glob W) nm) (Bf nm)) eqn:Ef; [|discriminate].
+  apply fun_eqb_eq in Ef. destruct Ef as [Eg [mo [fid Ebf]]].
+  intros H. exists b, mo, fid. conj; [reflexivity|congruence|exact Ebf|].
+  destruct (den (w_glob W) e); injection H as <- <-; auto.
+Qed.
+
+Lemma fetch_lcl0 v mid b0 ip fr ser x m1 mc :
+  in_frame b0 ip fr ser x m1 mc -> fetch (St v mid mc) mid AddrLcl 0 = Good (St v mid mc, x).
+Proof.
+  intros (F & _ & _ & _ & _ & X0 & _). unfold fetch.
+  change (AddrLcl =? AddrStck) with false. change (AddrLcl =? AddrDS) with false.
+  change (AddrLcl =? AddrCls) with false. change (AddrLcl =? AddrLcl) with true. cbv iota.
+  rewrite St_get. cbn [obind]. unfold mLookUpLocal.
+  destruct (fp_at_app2 mc (m_fp m1) b0 (b0 + 1) F) as [F2 _]. rewrite F2. cbn [obind].
+  unfold stack_get. rewrite Z.add_0_r, X0. reflexivity.
+Qed.
+
+(* the body instruction of a built-in, run inside its frame *)
+Lemma bop_step b rr v mid m1 mc r i1 b0 ip fr ser x :
+  at_ip v r mid i1 ->
+  decode i1 = {| f_op := bop_code b; f_k0 := AddrLcl; f_k1 := 0; f_k2 := 0; f_a0 := 0; f_a1 := 0; f_a2 := 0 |} ->
+  in_frame b0 ip fr ser x m1 mc -> 0 <= b0 -> m_sp mc = b0 + 2 -> m_sp mc <= zlen (m_stack mc) ->
+  match snd (bop_sem b (wof v) x) with
+  | Ok y => exists m4, step (St v mid mc) r rr = SNext (St (set_world v (fst (bop_sem b (wof v) x))) mid m4) r /\
+              in_frame b0 ip fr ser x m1 m4 /\ m_sp m4 = b0 + 3 /\ m_sp m4 <= zlen (m_stack m4) /\
+              znth (m_stack m4) (b0 + 2) = Some y /\ not_fun y
+  | Fail err => exists ipe vals, step (St v mid mc) r rr = SErr (St v mid mc) (r_ctx r) ipe err vals /\
+                  fst (bop_sem b (wof v) x) = wof v
+  end.
+Proof.
+  intros Hat Hd Hin Hb0 Hsp Hle.
+  assert (Hspc : 0 <= m_sp mc <= zlen (m_stack mc)) by lia.
+  assert (Push : forall v' y, exists m4, vPush (St v' mid mc) mid y = Good (St v' mid m4) /\
+            in_frame b0 ip fr ser x m1 m4 /\ m_sp m4 = b0 + 3 /\ m_sp m4 <= zlen (m_stack m4) /\
+            znth (m_stack m4) (b0 + 2) = Some y).
+  { intros v' y. destruct (vPush_St v' mid mc y Hspc) as [m4 [Hp [Hm4 [Hs4 Ht4]]]].
+    exists m4. split; [exact Hp|]. split; [apply (in_frame_msame b0 ip fr ser x m1 mc m4 (m_sp mc) Hin Hm4); lia|].
+    split; [lia|]. split; [destruct Hm4 as (_&_&_&_&_&B); lia|]. rewrite <- Hsp. exact Ht4. }
+  destruct b; cbn [bop_code bop_sem fst snd] in *.
+  - rewrite (step_write v mid mc r rr i1 _ _ _ _ _ _ Hat Hd), (fetch_lcl0 v mid b0 ip fr ser x m1 mc Hin).
+    cbn [obind]. rewrite write_out_St.
+    destruct (Push (write_out v (to_string fmt_float x)) VNil) as [m4 [Hp R]]. rewrite Hp. cbn [obind lift next].
+    exists m4. split; [reflexivity|]. destruct R as (R1 & R2 & R3 & R4). conj; try assumption. exact I.
+  - rewrite (step_toa v mid mc r rr i1 _ _ _ _ _ _ Hat Hd), (fetch_lcl0 v mid b0 ip fr ser x m1 mc Hin).
+    cbn [obind].
+    destruct (Push v (VStr (to_string fmt_float x))) as [m4 [Hp R]]. rewrite Hp. cbn [obind lift next].
+    exists m4. rewrite set_world_same. split; [reflexivity|]. destruct R as (R1 & R2 & R3 & R4). conj; try assumption. exact I.
+  - rewrite (step_aton v mid mc r rr i1 _ _ _ _ _ _ Hat Hd), (fetch_lcl0 v mid b0 ip fr ser x m1 mc Hin).
+    cbn [obind]. unfold aton_res. destruct x as [| | |s0| | |]; try (eexists; eexists; split; reflexivity).
+    destruct (atoi s0) as [i|].
+    + destruct (Push v (VInt i)) as [m4 [Hp R]]. rewrite Hp. cbn [obind lift next].
+      exists m4. rewrite set_world_same. split; [reflexivity|]. destruct R as (R1 & R2 & R3 & R4). conj; try assumption. exact I.
+    + destruct (parse_float s0) as [f| |]; try (eexists; eexists; split; reflexivity).
+      destruct (Push v (VFloat f)) as [m4 [Hp R]]. rewrite Hp. cbn [obind lift next].
+      exists m4. rewrite set_world_same. split; [reflexivity|]. destruct R as (R1 & R2 & R3 & R4). conj; try assumption. exact I.
+Qed.
+
+Lemma lor3_reorder a b c : Z.lor (Z.lor a b) c = Z.lor (Z.lor b c) a.
+Proof. rewrite (Z.lor_comm a b), <- Z.lor_assoc, (Z.lor_comm a c), Z.lor_assoc. reflexivity. Qed.
+
+Lemma bcall_specS nm b e d sel s s' w :
+  bop_of_name nm = Some b -> pure e = true -> 0 <= sel <= 2 -> wfcs s ->
+  comp (NCall (NName nm) [e]) sel (tfl d) s = COk (w, s') ->
+  SpecS (NCall (NName nm) [e]) d sel s s' w.
+Proof.
+  intros Hb Hp Hsel Hwf H. rewrite comp_call1_unfold in H.
+  change (withOpDepth 0 (pass (tfl d))) with (tfl false) in H.
+  apply cbind_ok in H. destruct H as [u1 [sA [Hargs H]]].
+  apply cbind_ok in Hargs. destruct Hargs as [we [s1 [He Hargs]]].
+  apply cbind_ok in Hargs. destruct Hargs as [u2 [s2 [Hpush Hret]]]. apply cret_ok in Hret. destruct Hret as [_ ->].
+  apply (comp_pure_spec e Hp 0 (tfl false) s we s1 ltac:(lia) Hwf) in He. apply SpecD_lay in He.
+  destruct He as [code [K [A (L1 & W1 & Ee & Ok1 & _ & NT & X)]]].
+  assert (NK : K <> AddrTmp) by (apply NT; reflexivity).
+  assert (NI : K <> AddrInv) by (unfold okind, AddrStck, AddrTmp, AddrDS, AddrGbl, AddrInv in *; lia).
+  destruct (enc_src0 K A we (okind_range K Ok1) Ee) as [S0 _]. rewrite S0 in Hpush.
+  assert (Hp2 : lay s1 s2 (push_code K we) /\ rds s2 = rds s1 /\ nds s2 = nds s1 /\ wfcs s2).
+  { unfold push_code. rewrite (proj2 (Z.eqb_neq K AddrInv) NI) in Hpush. cbn [negb] in Hpush. rewrite andb_true_r in Hpush.
+    destruct (K =? AddrStck); cbn [negb] in Hpush.
+    - apply cret_ok in Hpush. destruct Hpush as [_ ->]. conj; [apply lay_refl|reflexivity|reflexivity|exact W1].
+    - apply emit_ok in Hpush. subst s2. rewrite Z.lor_comm. conj; try reflexivity.
+      + change [Z.lor (New PUSH) we] with ([] ++ [Z.lor (New PUSH) we]). apply lay_emit. apply lay_refl.
+      + apply wfcs_emitted. exact W1. }
+  destruct Hp2 as [Lp [Rd2 [Nd2 W2]]].
+  apply cbind_ok in H. destruct H as [addr [s3 [Hh H]]]. apply here_ok in Hh. destruct Hh as [-> ->].
+  apply cbind_ok in H. destruct H as [u3 [s4 [Hdbg H]]]. apply put_dbg_ok in Hdbg. destruct Hdbg as (R4 & N4 & D4 & ND4).
+  apply cbind_ok in H. destruct H as [wg [s5 [Href H]]].
+  cbn [comp_ref] in Href. apply cbind_ok in Href. destruct Href as [ix [s5' [Hds Href]]].
+  apply add_ds_ok in Hds. destruct Hds as [-> ->]. apply enc_ok in Href. destruct Href as [-> Ewg].
+  apply cbind_ok in H. destruct H as [wi [s6 [Hi H]]]. apply enc_ok in Hi. destruct Hi as [-> Ewi].
+  apply cbind_ok in H. destruct H as [u4 [s7 [Hem Hres]]].
+  apply emit_ok in Hem. subst s7. apply enc_ok in Hres. destruct Hres as [-> Ew].
+  set (instr := Z.lor (Z.lor wg (New CALL)) wi) in *.
+  assert (Hdi : decode instr = {| f_op := CALL; f_k0 := AddrGbl; f_k1 := AddrImm; f_k2 := 0; f_a0 := nds s4; f_a1 := 1; f_a2 := 0 |}).
+  { unfold instr. rewrite lor3_reorder.
+    apply (decode_op01 CALL AddrGbl (nds s4) AddrImm 1 wg wi call_range gbl_range imm_range Ewg Ewi). }
+  set (s5 := with_data s4 (VStr nm)) in *.
+  assert (L4 : lay s s4 (code ++ push_code K we)).
+  { destruct (lay_trans s s1 s2 _ _ L1 Lp) as (R & N & [dd D]). unfold lay. rewrite R4, N4, D4. conj; [exact R|exact N|exists dd; exact D]. }
+  assert (W4 : wfcs s4).
+  { destruct W2 as [A1 B1]. unfold wfcs. rewrite R4, N4, D4, ND4. split; assumption. }
+  assert (W5 : wfcs s5).
+  { destruct W4 as [A1 B1]. unfold wfcs, s5, with_data, zlen in *; cbn [rcs ncs rds nds List.length]. split; lia. }
+  exists ((code ++ push_code K we) ++ [instr]), AddrStck, 0. conj.
+  - apply lay_emit. destruct L4 as (R & N & [dd D]). unfold lay, s5, with_data; cbn [rcs ncs rds]. conj; try assumption.
+    exists (VStr nm :: dd). rewrite D. reflexivity.
+  - apply wfcs_emitted. exact W5.
+  - exact Ew.
+  - left. reflexivity.
+  - intros _. split; discriminate.
+  - intros n rr v mid m r W' res Hbc Hc Hdat Hm Hsp Hip HM.
+    apply ssem_call in HM. destruct HM as (b' & mo & fid & Hb' & Hg & Hbf & HM).
+    rewrite Hb in Hb'. injection Hb' as <-. change (w_glob (wof v)) with (v_globals v) in *.
+    pose proof (code_at_nth v (ncs s) (code ++ push_code K we) instr [] Hc) as Hi_call.
+    apply code_at_app in Hc. destruct Hc as [Hc _].
+    assert (Hd1 : data_at v s1).
+    { destruct Lp as (_ & _ & [dp Dp]). intros i y Hy. apply Hdat. cbn [emitted rds s5 with_data rev].
+      apply znth_app_l. rewrite D4, Rd2. exact Hy. }
+    assert (Hname : znth (v_ds v) (nds s4) = Some (VStr nm)).
+    { apply Hdat. cbn [emitted rds s5 with_data]. rewrite (proj2 W4). apply znth_rev_cons. }
+    (* the argument, on the stack *)
+    assert (XS : RunsS (fun W => Some (W, den (w_glob W) e)) false s s2 s1 (code ++ push_code K we) AddrStck 0).
+    { apply (value_on_stack _ s s1 s2 s1 code K A we).
+      - apply (RunsK_S (fun G => den G e) _ false s s1 s1 code K A _ X). intros G G' r0 E0. injection E0 as <- <-. auto.
+      - exact NK.
+      - exact NI.
+      - apply okind_skind. exact Ok1.
+      - exact Ee.
+      - destruct L1 as (_ & N & _). exact N.
+      - destruct Lp as (_ & N & _). exact N. }
+    pose proof (XS rr v mid m r (wof v) (den (v_globals v) e) Hbc Hc Hd1 Hm Hsp Hip eq_refl) as E.
+    destruct (den (v_globals v) e) as [x|err].
+    + destruct HM as [-> ->].
+      destruct E as [k1 [m1 [r1 [Hs1 [Hm1 [Hc1 [Hi1 Ho]]]]]]]. rewrite SG_same in Hs1. rewrite set_world_same in Ho.
+      destruct Ho as [[_ [Hsp1 Hx1]]|[[E1 _]|[[E1 _]|[E1 _]]]]; try discriminate E1.
+      assert (Hm1' : cur_mid v r1 = Good mid) by (rewrite (cur_mid_ctx v r r1 Hc1); exact Hm).
+      assert (Hat : at_ip v r1 mid instr).
+      { split; [|exact Hm1']. rewrite Hi1. destruct L4 as (_ & N & _). rewrite <- N4, N. exact Hi_call. }
+      destruct (Hbc nm b mo fid Hb Hbf) as (morph & fid' & fr & i1 & i2 & Ef & Hpar & Hloc & Hfr & Hi1c & Hi2c & Hd1i & Hd2i).
+      rewrite Hbf in Ef. injection Ef as <- <-.
+      assert (Hle1 : m_sp m1 <= zlen (m_stack m1)) by (destruct Hm1 as (_&_&_&_&_&B); lia).
+      destruct (call_enter rr v mid m1 r1 instr (nds s4) nm mo fid fr (m_sp m) x 0 0 Hat Hdi Hname Hg Hpar Hloc Hfr
+                  (proj1 Hsp) Hsp1 Hle1 Hx1) as [mc [Hs2 [Hin [Hspc Hlec]]]].
+      set (vb := vbump v) in *.
+      set (r2 := with_ip (with_ip r1 (fn_node mo - 1)) (r_ip (with_ip r1 (fn_node mo - 1)) + 1)).
+      assert (Hat2 : at_ip vb r2 mid i1).
+      { split; [unfold r2; cbn [with_ip r_ip]; replace (fn_node mo - 1 + 1) with (fn_node mo) by lia; exact Hi1c|].
+        change (cur_mid vb r2) with (cur_mid v r2). rewrite (cur_mid_ctx v r1 r2); [exact Hm1'|reflexivity]. }
+      pose proof (bop_step b rr vb mid m1 mc r2 i1 (m_sp m) (r_ip r1) fr (v_next v) x Hat2 Hd1i Hin (proj1 Hsp) Hspc Hlec) as Hbody.
+      assert (EW : bop_sem b (wof vb) x = (wbump (fst (bop_sem b (wof v) x)), snd (bop_sem b (wof v) x))).
+      { destruct b; reflexivity. }
+      rewrite EW in Hbody. cbn [fst snd] in Hbody.
+      destruct (snd (bop_sem b (wof v) x)) as [y|err] eqn:Er.
+      * destruct Hbody as [m4 [Hs3 [Hin4 [Hsp4 [Hle4 [Hy Hnf]]]]]].
+        set (v3 := set_world vb (wbump (fst (bop_sem b (wof v) x)))) in *.
+        set (r3 := with_ip r2 (r_ip r2 + 1)).
+        assert (Hat3 : at_ip v3 r3 mid i2).
+        { split; [unfold r3, r2; cbn [with_ip r_ip]; replace (fn_node mo - 1 + 1 + 1) with (fn_node mo + 1) by lia; exact Hi2c|].
+          change (cur_mid v3 r3) with (cur_mid v r3). rewrite (cur_mid_ctx v r1 r3); [exact Hm1'|reflexivity]. }
+        destruct (call_leave rr v3 mid m1 m4 r3 i2 (m_sp m) (r_ip r1) fr (v_next v) x y 0 0 0 0 0 Hat3 Hd2i Hin4 (proj1 Hsp)
+                    Hsp4 Hle4 Hy Hnf) as [m5 [Hs4 (F5 & C5 & S5 & P5 & T5 & Hsp5 & Hle5 & Htop5)]].
+        exists (k1 + 3)%nat, m5, (with_ip (with_ip r3 (r_ip r1)) (r_ip r1 + 1)).
+        rewrite steps_app, Hs1. cbn [steps]. rewrite Hs2. cbv beta iota. fold r2. rewrite Hs3. cbv beta iota. fold r3.
+        rewrite Hs4. cbv beta iota. conj.
+        -- unfold SG, v3, vb. destruct b; reflexivity.
+        -- destruct Hm1 as (F1 & C1 & S1 & P1 & T1 & B1). unfold msame.
+           split; [congruence|]. split; [congruence|]. split; [congruence|]. split; [exact (incl_tran P5 P1)|].
+           split; [rewrite T5; exact T1|lia].
+        -- cbn [with_ip r_ctx]. exact Hc1.
+        -- cbn [with_ip r_ip emitted ncs s5 with_data]. destruct L4 as (_ & N & _). rewrite Hi1. unfold zlen in *.
+           rewrite app_length in N. lia.
+        -- destruct d; [unfold stack_effect; cbn; lia|].
+           left. conj; [reflexivity|lia|exact Htop5].
+      * destruct Hbody as [ipe [vals [Hs3 EW2]]].
+        exists (k1 + 2)%nat, mc, ipe, vals.
+        rewrite steps_app, Hs1. cbn [steps]. rewrite Hs2. cbv beta iota. fold r2. rewrite Hs3.
+        replace (r_ctx r2) with (r_ctx r) by (unfold r2; cbn [with_ip r_ctx]; congruence).
+        rewrite EW2. reflexivity.
+    + destruct HM as [-> ->]. exact E.
+Qed.
+
 (* ================= every statement ================= *)
 Section WInd.
   Variable Q : node -> Prop.
@@ -1898,6 +2129,7 @@ Section WInd.
   Hypothesis HIfElse : forall c a b, pure c = true -> wstmt a = true -> wstmt b = true -> Q a -> Q b -> Q (NIfElse c a b).
   Hypothesis HWhile : forall c b, pure c = true -> wstmt b = true -> Q b -> Q (NWhile c b).
   Hypothesis HWrite : forall e, pure e = true -> Q (NWrite e).
+  Hypothesis HCall : forall nm b e, bop_of_name nm = Some b -> pure e = true -> Q (NCall (NName nm) [e]).
 
   Fixpoint wstmt_induction (t : node) : wstmt t = true -> Q t.
   Proof.
@@ -1912,6 +2144,8 @@ Section WInd.
       clear Hw. induction l as [|x r IHr]; [constructor|].
       cbn [forallb] in Hall. apply andb_prop in Hall. destruct Hall as [Hx Hr].
       constructor; [apply wstmt_induction; exact Hx|apply IHr; exact Hr].
+    - destruct t; try discriminate Hw. destruct args as [|e [|e2 args]]; try discriminate Hw.
+      destruct (bop_of_name n) as [b|] eqn:Eb; [|discriminate Hw]. exact (HCall n b e Eb Hw).
     - apply HWrite. exact Hw.
   Defined.
 End WInd.
@@ -1932,4 +2166,6 @@ Proof.
     + apply (while_discard_specS c b 0 s s' w ltac:(lia) Hc Hb Hwf H).
     + apply (while_value_specS c b s s' w Hc Hb Hwf H).
   - intros e Hp d sel s w s' -> Hwf H. apply (write_specS e d 0 s s' w Hp ltac:(lia) Hwf H).
+  - intros nm b e Hb Hp d sel s w s' -> Hwf H. apply (bcall_specS nm b e d 0 s s' w Hb Hp ltac:(lia) Hwf H).
 Qed.
+End WithB.
